@@ -154,6 +154,8 @@ class Obj(T):
     generic_params: Tuple[str, ...] = ()
     post_assign: Tuple[Tuple[str, str], ...] = ()  # __post_init__ semantics: target field = source field
     methods: Tuple[M, ...] = ()
+    base_specs: Tuple[Any, ...] = ()  # Obj specs of the bases (same order as `bases`)
+    post_effects: Tuple[Tuple[str, Any], ...] = ()  # __post_init__ semantics: target field = fn(field values)
 
     def key(self):
         return repr(self)
@@ -208,6 +210,8 @@ def walk(t: T):
         yield from walk(t.k)
         yield from walk(t.v)
     elif isinstance(t, Obj):
+        for b in t.base_specs:
+            yield from walk(b)
         for f in t.fields:
             yield from walk(f.type)
     elif isinstance(t, Gen):
